@@ -122,6 +122,8 @@ class Run:
         elif op == "send":
             yield from self._send(step)
         elif op == "activate":
+            if self.sm is None:
+                return
             rec.emit("step", op="activate", phase="begin")
             try:
                 res = self.sm.activate_initial_state()
@@ -133,6 +135,8 @@ class Run:
                 rec.emit("step", op="activate", phase="end", exc=type(err).__name__, exc_msg=str(err)[:200])
             self._probe()
         elif op == "add_listener":
+            if self.sm is None:
+                return
             provs = step["providers"]
             rec.emit("step", op="add_listener", phase="begin", providers=provs)
             try:
@@ -160,8 +164,12 @@ class Run:
     def _construct(self, step):
         rec = self.rec
         spec = self.spec
-        self.mod, self.source = render.load(spec, rec, source=step.get("source"))
-        self.objs = render.provider_objects(spec, self.mod)
+        reuse = bool(step.get("reuse_model")) and self.mod is not None
+        if step.get("reuse_class") and self.mod is not None:
+            self.objs = render.provider_objects(spec, self.mod)
+        elif not reuse:
+            self.mod, self.source = render.load(spec, rec, source=step.get("source"))
+            self.objs = render.provider_objects(spec, self.mod)
         rec.write_values = {
             st["id"]: (eval(st["value"]["expr"], self.mod.__dict__) if st.get("value") else st["id"])  # noqa: S307
             for st in spec["states"]
@@ -188,7 +196,7 @@ class Run:
                         setattr(cls, nm, v)
                     elif p in self.objs:
                         setattr(self.objs[p], nm, v)
-        rec.emit("step", op="construct", phase="begin", val=dict(rec.val), stored=stored, start=step.get("start"))
+        rec.emit("step", op="construct", phase="begin", val=dict(rec.val), stored=stored, start=step.get("start"), reuse=reuse)
         self.user_model = model
         try:
             if spec.get("model_shape") == "default":
